@@ -35,6 +35,9 @@ def curated():
                    names={'nm': ['S', '$A$1'], 'rg': ['S', '$A$1:$A$3']}), ranges=['S!A1:A3'])
     add('cse', S({'A1': 1, 'A2': 2, 'B1': 3, 'B2': 4, 'D1:E2': {'array': '=A1:B2*2'},
                   'F1': '=D1+E2', 'F2': '=SUM(D1:E2)'}), ranges=['S!D1:E2', 'S!A1:B2'], tags=['cse'])
+    add('cse_ctx', S({'D1': 1, 'D2': 2, 'B1': 10, 'B2': 20, 'C1': '=IFERROR(D1:D2,99)',
+                      'A1:A2': {'array': '=C1+B1:B2'}, 'E1': '=A1+A2'}), ranges=['S!A1:A2'], tags=['cse'],
+        inputs=['S!D1', 'S!B2'])
     add('blank', S({'B1': '=A1+1', 'C1': '=A1&"x"', 'D1': '=ISBLANK(A1)', 'E1': 1}),
         inputs=['S!A1'], ranges=['S!A1:B1'])
     add('types', S({'A1': 0, 'B1': '=A1&""', 'C1': '=ISLOGICAL(A1)', 'D1': '=A1=0', 'E1': '=ISNUMBER(A1)',
@@ -47,7 +50,7 @@ def curated():
     add('errconst', S({'A1': '#N/A', 'B1': '=A1+1', 'C1': '=ISNA(A1)', 'A2': 1, 'B2': '=SUM(A1:A2)'}),
         ranges=['S!A1:A2'])
     add('mixed_range', S({'A1': 1, 'A2': 'x', 'A3': True, 'B1': '=SUM(A1:A3)', 'B2': '=COUNT(A1:A3)',
-                          'B3': '=COUNTA(A1:A3)', 'C1': '=A1+A3'}), ranges=['S!A1:A3'])
+                          'B3': '=COUNTIF(A1:A3,"x")', 'C1': '=A1+A3'}), ranges=['S!A1:A3'])
     for f in fam:
         if f['inputs'] is None:
             f['inputs'] = W.constant_cells(f['spec'])
